@@ -141,15 +141,16 @@ func Plan(p *Prog, fixed []Ctx) []PlanEntry {
 		for _, n := range names {
 			for _, f := range fixed {
 				if f.Name == n {
-					out = append(out, PlanEntry{Ctx: f})
+					// a program without references behaves the same everywhere
+					out = append(out, PlanEntry{Ctx: f, Hazard: own.Hazard && !p.Dynamic})
 				}
 			}
 		}
 		return out
 	}
 	switch {
-	case p.Family == "math":
-		// the pairs of group values are the point
+	case p.Family == "math", p.Family == "rng":
+		// the pairs of group values are the point / own context only
 		return []PlanEntry{own}
 	case p.Heavy:
 		return []PlanEntry{own}
@@ -177,10 +178,11 @@ func Plan(p *Prog, fixed []Ctx) []PlanEntry {
 				}
 				vals[i] = v
 			}
-			if ExcludedByDesign("@range", vals) != "" {
+			if ExcludedByDesign("@range", vals) != "" || RangeOverflows(vals) {
+				// the overflowing combinations are run by the rng family
 				continue
 			}
-			out = append(out, PlanEntry{Ctx: f, Hazard: RangeOverflows(vals)})
+			out = append(out, PlanEntry{Ctx: f})
 		}
 		return out
 	}
